@@ -61,6 +61,8 @@ structure Codec.Lawful {α : Type} (C : Codec α) : Prop where
 /-- `len(msg.GetData().GetMsgInfo())`-style read: nil and empty are both the empty byte string -/
 def Msg.bytes (m : Msg) : Bytes := m.info.getD []
 
+/-- `pb.XuperMessage_NONE` (SUCCESS is 0) -/
+def errorNone : Nat := 1
 def version3 : Str := "3.0.0".toList
 def defaultChain : Str := "xuper".toList
 
@@ -76,7 +78,7 @@ def checksum (m : Msg) : BitVec 32 := crc32 m.bytes
 /-- `NewMessage(typ, message, opts...)`; `logid` stands for `utils.GenLogId()`; `payload = none` is a nil message -/
 def newMessage {α : Type} (C : Codec α) (typ : Nat) (logid : Str) (payload : Option α) (opts : List Opt) : Msg :=
   let m0 : Msg := { header := { version := version3, logid := logid, sender := [], bcname := defaultChain, typ := typ,
-                                checksum := 0#32, errorType := 0, enableCompress := false },
+                                checksum := 0#32, errorType := errorNone, enableCompress := false },
                     info := payload.map C.marshal }
   let m1 := opts.foldl applyOpt m0
   let m2 := compress C m1
@@ -114,5 +116,12 @@ def getRespMessageType (t : Nat) : Nat :=
   match XV.Gen.requestToResponse.lookup t with
   | some r => r
   | none => t + XV.Gen.respDefaultOffset
+
+/-- `VerifyMessageType(request, response, peerID)` -/
+def verifyMessageType (req resp : Header) (peer : Str) : Bool :=
+  if resp.sender ≠ peer then false
+  else if req.logid ≠ resp.logid then false
+  else if getRespMessageType req.typ ≠ resp.typ then false
+  else true
 
 end XV.Msg
